@@ -3,6 +3,7 @@ import Sudachi.Model.CodecBuild
 import Sudachi.Proofs.Codec
 import Sudachi.Proofs.CodecLayout
 import Sudachi.Proofs.CodecFile
+import Sudachi.Proofs.CodecCsv
 /-!
 # C05 — compile-then-load round trip preserves every dictionary field, deterministically
 
@@ -137,7 +138,7 @@ set_option maxRecDepth 100000 in
 `validate_entries` (user word 0 exists), is written with the raw id `0x10000000`, and
 `WordInfos::get_word_info` then indexes the offsets table of the same lexicon with that raw id: panic. -/
 theorem user_dicform_counterexample :
-    validateEntries 1 1 (some 5) [plainEntry [12354] (widNew 1 0)] = true ∧
+    validateEntries false 1 1 (some 5) [plainEntry [12354] (widNew 1 0)] = true ∧
     (lexOf [plainEntry [12354] (widNew 1 0)]).getWordInfo 0 = .panic "slice:word_id_to_offset" := by
   decide
 
@@ -146,7 +147,7 @@ set_option maxRecDepth 100000 in
 `1` (= SYSTEM word 1 for the validator: 5 system words exist) gets the headword of USER word 1 (`い`)
 as its dictionary form, whatever system word 1 is. -/
 theorem user_dicform_wrong_counterexample :
-    validateEntries 1 1 (some 5) [plainEntry [12354] 1, plainEntry [12356] INVALID_WID] = true ∧
+    validateEntries false 1 1 (some 5) [plainEntry [12354] 1, plainEntry [12356] INVALID_WID] = true ∧
     ((lexOf [plainEntry [12354] 1, plainEntry [12356] INVALID_WID]).getWordInfo 0).bind (fun wi => .ok wi.dictionaryFormA)
       = .ok [12356] := by
   decide
@@ -234,7 +235,7 @@ The dictionary-form id is the id as `write_word_info` stores it (`storeDf`, code
 itself for the code as it stands (`storeDf_cur`) and, in both variants, for `*` and every reference of a system
 dictionary (`storeDf_sys`); the repaired writer stores `UN` as `N` (`storeDf_user`). -/
 theorem dict_roundtrip (c : CompileInput) (hok : FileOk c)
-    (hval : validateEntries c.maxLeft c.maxRight c.numSystem c.entries = true) :
+    (hval : validateEntries c.dfOwn c.maxLeft c.maxRight c.numSystem c.entries = true) :
     ∃ ld g,
       compile c = .ok (fileBytes c) ∧
       readAny (fileBytes c) 0 = .ok ld ∧
@@ -406,6 +407,95 @@ theorem load_alignment_free (pad bytes : Bytes) :
   · unfold readSystem; rw [h]
   · unfold readUser; rw [h]
 
+/-! ## the CSV side: `LexiconReader::read_bytes` -/
+
+/-- Record-level contract of the lexicon reader, RFC 4180 direction (full).  `csvRecords` is the reader
+`LexiconReader::read_bytes` configures (csv-core's automaton for delimiter `,`, quote `"` with `""`, NO comment
+character, no trimming, terminators `\r` / `\n` / `\r\n`, records of any length), executed by the driver on the CSV
+TEXT of every case.  For EVERY list of non-empty records, whatever the fields contain (`#` at the start of a line,
+quotes, commas, line breaks, U+FEFF, spaces), written as RFC 4180 writes them (every field in quotes, `"` doubled,
+any of the three terminators after each record), the reader returns exactly these records, in order: every written
+line is one record, nothing is a comment, nothing is trimmed, no record is merged or dropped. -/
+theorem csv_records_roundtrip (rs : List (List Str × CsvTerm)) (hne : ∀ r ∈ rs, r.1 ≠ []) :
+    csvRecords (csvRender rs) = rs.map (·.1) := by
+  unfold csvRecords
+  rw [csvStripBom_render rs hne]
+  obtain ⟨s', hs', h⟩ := csv_all_records rs hne .startRecord (Or.inl rfl) []
+  have h' : (csvRender rs).foldl csvStep {} = { st := s', cur := [], fields := [], recs := (rs.map (·.1)).reverse ++ [] } := h
+  rw [h']
+  rcases hs' with rfl | rfl <;> simp [csvFinal]
+
+set_option maxRecDepth 100000 in
+/-- The same contract on the shapes an RFC 4180 writer does NOT produce but the reader accepts (kernel-evaluated on
+the model; each shape is generated by the harness and compared with the real reader on every run): a line that starts
+with `#` is a record (no comment lines - seeded change C05d); a `"` inside an unquoted field is text; text after a
+closing quote is appended; a trailing comma adds an empty field; a byte order mark is dropped at the very start only;
+blank lines (`\n`, `\r\n`, bare `\r`) are no records; the last record needs no terminator; an unterminated quote runs
+to the end of the input; spaces are kept. -/
+theorem csv_special_shapes :
+    csvRecords (lit "#a,b\n#\n") = [[lit "#a", lit "b"], [lit "#"]] ∧
+    csvRecords (lit "a\"b,\"c\"d\n") = [[lit "a\"b", lit "cd"]] ∧
+    csvRecords (lit "a,b,\n") = [[lit "a", lit "b", []]] ∧
+    csvRecords (0xFEFF :: lit "a\n") = [[lit "a"]] ∧ csvRecords (lit "a," ++ 0xFEFF :: lit "b\n") = [[lit "a", 0xFEFF :: lit "b"]] ∧
+    csvRecords (lit "\n\r\n\ra\r\r\nb\n\n") = [[lit "a"], [lit "b"]] ∧
+    csvRecords (lit "a,b") = [[lit "a", lit "b"]] ∧ csvRecords (lit "a,") = [[lit "a", []]] ∧
+    csvRecords (lit "\"a\nb") = [[lit "a\nb"]] ∧
+    csvRecords (lit " a , b \n") = [[lit " a ", lit " b "]] ∧
+    csvRecords (lit "\"\"\n") = [[[]]] ∧ csvRecords [] = [] := by
+  decide
+
+/-- Determinism from the source TEXT: the bytes are a function of (code variant, creation time, description, matrix
+text, CSV text, trie blob) - `read_bytes` has no other input (no clock, no environment, no hash order). -/
+theorem build_text_deterministic (v : Bool) (t1 t2 : Nat) (d1 d2 : Bytes) (m1 m2 c1 c2 : Str) (tr1 tr2 : Bytes)
+    (h : t1 = t2 ∧ d1 = d2 ∧ m1 = m2 ∧ c1 = c2 ∧ tr1 = tr2) :
+    buildSystemText v t1 d1 m1 c1 tr1 = buildSystemText v t2 d2 m2 c2 tr2 := by
+  obtain ⟨rfl, rfl, rfl, rfl, rfl⟩ := h; rfl
+
+/-- D8 second half under the candidate repair `fix_D8b.patch` (validator variant `dfOwn`, together with the landed
+repair of the first half, writer variant `dfFix`).  In a USER dictionary that passes `validate_entries`, EVERY row that
+declares a dictionary form - `N` or `UN` - is loaded without panic, and `get_word_info` reports the headword of the
+dictionary's OWN entry `N` (which exists): validator, writer and reader agree on what the column names.  For the code
+as it stands (`dfOwn = false`) the validator checks `N` against the SYSTEM dictionary while the reader resolves it in
+the user dictionary: `user_dicform_wrong_counterexample`. -/
+theorem user_dicform_own_repaired (c : CompileInput) (hok : FileOk c) (hfix : c.dfFix = true) (hown : c.dfOwn = true)
+    (n : Nat) (huser : c.numSystem = some n)
+    (hval : validateEntries c.dfOwn c.maxLeft c.maxRight c.numSystem c.entries = true)
+    (i : Nat) (e : Entry) (hi : c.entries[i]? = some e) (hdf : e.dicForm ≠ INVALID_WID) :
+    ∃ ld wi t, readAny (fileBytes c) 0 = .ok ld ∧ ld.lexicon.getWordInfo i = .ok wi ∧ wi.surface = e.headwordS ∧
+      c.entries[widWord e.dicForm]? = some t ∧
+      wi.dictionaryFormA = (if t.headwordS = [] then e.headwordS else t.headwordS) := by
+  have hk28 : widWord e.dicForm < 268435456 := by
+    unfold widWord WORD_MASK
+    have : e.dicForm &&& 0x0fffffff ≤ 0x0fffffff := Nat.and_le_right
+    omega
+  -- the validator saw the own entry
+  have hlen : widWord e.dicForm < c.entries.length := by
+    have hmem := List.mem_of_getElem? hi
+    rw [hown, huser] at hval
+    simp only [validateEntries, List.all_eq_true] at hval
+    have he := hval e hmem
+    simp only [validateEntry, Bool.and_eq_true, Bool.or_eq_true, decide_eq_true_eq] at he
+    obtain ⟨⟨⟨⟨_, hd⟩, _⟩, _⟩, _⟩ := he
+    rcases hd with hd | hd
+    · exact absurd hd hdf
+    · obtain ⟨_, h2, h3⟩ := widNew_user (widWord e.dicForm) hk28
+      simp only [dfCheckId, Option.isSome, Bool.and_self, if_true, validateWid, h2, h3] at hd
+      simpa using hd
+  -- the writer stored the index
+  have hst : (storeDf c.dfFix e).dicForm = widWord e.dicForm := by
+    rw [hfix]
+    by_cases hz : widDic e.dicForm = 0
+    · rw [storeDf_sys true e (Or.inr hz)]; exact (widWord_of_dic_zero _ hz).symm
+    · unfold storeDf; simp [hdf, hz]
+  obtain ⟨t, ht⟩ : ∃ t, c.entries[widWord e.dicForm]? = some t := ⟨c.entries[widWord e.dicForm], by simp [hlen]⟩
+  by_cases hself : widWord e.dicForm = i
+  · obtain ⟨ld, wi, h1, h2, h3, h4⟩ := dict_roundtrip_dicform c hok i e hi none (Or.inr (Or.inl ⟨by rw [hst]; exact hself, rfl⟩))
+    have hte : t = e := by rw [hself, hi] at ht; exact (Option.some.inj ht).symm
+    exact ⟨ld, wi, t, h1, h2, h3, ht, by rw [h4, hte]; simp⟩
+  · obtain ⟨ld, wi, h1, h2, h3, h4⟩ := dict_roundtrip_dicform c hok i e hi (some t)
+      (Or.inr (Or.inr ⟨by rw [hst]; omega, by rw [hst]; exact hself, t, by rw [hst]; exact ht, rfl⟩))
+    exact ⟨ld, wi, t, h1, h2, h3, ht, h4⟩
+
 /-! non-vacuity of the hypotheses -/
 
 example : (127 : Nat) ≤ 32767 ∧ stringLength (encLen 127 ++ [9]) = some (127, [9]) ∧ encLen 126 = [126] ∧ encLen 127 = [128, 127] ∧ encLen 128 = [128, 128] := by decide
@@ -436,7 +526,7 @@ def sampleInput : CompileInput :=
 
 set_option maxRecDepth 100000 in
 example : FileOk sampleInput ∧
-    validateEntries sampleInput.maxLeft sampleInput.maxRight sampleInput.numSystem sampleInput.entries = true := by decide
+    validateEntries sampleInput.dfOwn sampleInput.maxLeft sampleInput.maxRight sampleInput.numSystem sampleInput.entries = true := by decide
 set_option maxRecDepth 100000 in
 example : FileOk { sampleInput with user := true, numSystem := some 1, startPos := 1, conn := {}, entries := [plainEntry [12354] 0] } := by decide
 set_option maxRecDepth 100000 in
@@ -456,7 +546,7 @@ def repairedUserInput : CompileInput :=
     maxLeft := 2, maxRight := 1, numSystem := some 5, trie := [1, 2, 3, 4] }
 set_option maxRecDepth 100000 in
 example : FileOk repairedUserInput ∧ repairedUserInput.dfFix = true ∧
-    validateEntries repairedUserInput.maxLeft repairedUserInput.maxRight repairedUserInput.numSystem repairedUserInput.entries = true ∧
+    validateEntries repairedUserInput.dfOwn repairedUserInput.maxLeft repairedUserInput.maxRight repairedUserInput.numSystem repairedUserInput.entries = true ∧
     repairedUserInput.entries[0]? = some (plainEntry [12354] (widNew 1 1)) ∧ (plainEntry [12354] (widNew 1 1)).dicForm = widNew 1 1 ∧
     repairedUserInput.entries[1]? = some (plainEntry [12356] INVALID_WID) ∧ (plainEntry [12356] INVALID_WID).headwordS ≠ [] := by decide
 set_option maxRecDepth 100000 in
@@ -474,5 +564,24 @@ example : (readLines (lit "2 1\n0 0 5\n\n1 0 -5\n")).dropWhile isEmptyLine = lit
     (splitnWhite 2 (trim (lit "2 1\n"))).map parseI16 = [some ((2 : Nat) : Int), some ((1 : Nat) : Int)] ∧
     lineTriples [lit "0 0 5\n", lit "\n", lit "1 0 -5\n"] = some [(0, 0, 5), (1, 0, -5)] := by decide
 example : Holds (List.replicate (2 * 3 * 2) 0) 2 3 (fun _ _ => 0) := holds_zero 2 3
+set_option maxRecDepth 100000 in
+/-- two records with every CSV-special character, written with three different terminators -/
+example : (∀ r ∈ [([lit "#x", lit "a\"b,c\nd"], CsvTerm.crlf), ([[], 0xFEFF :: lit "y"], CsvTerm.cr), ([lit " z "], CsvTerm.lf)], r.1 ≠ []) ∧
+    csvRecords (csvRender [([lit "#x", lit "a\"b,c\nd"], CsvTerm.crlf), ([[], 0xFEFF :: lit "y"], CsvTerm.cr), ([lit " z "], CsvTerm.lf)])
+      = [[lit "#x", lit "a\"b,c\nd"], [[], 0xFEFF :: lit "y"], [lit " z "]] := by decide
+/-- a user dictionary under both repairs: row 0 (`あ`) names own entry 1 (`い`) by the plain id `1`, row 1 names row 0 as `U0` -/
+def ownUserInput : CompileInput :=
+  { user := true, dfFix := true, dfOwn := true, time := 1600000000, desc := [117], pos := [[[97], [98], [], [42], [42], [0x20BB7]]], startPos := 1,
+    conn := { matrix := [], numLeft := 0, numRight := 0 },
+    entries := [plainEntry [12354] 1, plainEntry [12356] (widNew 1 0)],
+    maxLeft := 2, maxRight := 1, numSystem := some 1, trie := [1, 2, 3, 4] }
+set_option maxRecDepth 100000 in
+example : FileOk ownUserInput ∧ ownUserInput.dfFix = true ∧ ownUserInput.dfOwn = true ∧ ownUserInput.numSystem = some 1 ∧
+    validateEntries ownUserInput.dfOwn ownUserInput.maxLeft ownUserInput.maxRight ownUserInput.numSystem ownUserInput.entries = true ∧
+    ownUserInput.entries[0]? = some (plainEntry [12354] 1) ∧ (plainEntry [12354] 1).dicForm ≠ INVALID_WID ∧
+    -- the code as it stands refuses this dictionary (system word 1 does not exist) ...
+    validateEntries false ownUserInput.maxLeft ownUserInput.maxRight ownUserInput.numSystem ownUserInput.entries = false ∧
+    -- ... and accepts `5` with six system words, which the reader cannot resolve; the repaired validator refuses it
+    validateEntries false 2 1 (some 6) [plainEntry [12354] 5] = true ∧ validateEntries true 2 1 (some 6) [plainEntry [12354] 5] = false := by decide
 
 end C05
